@@ -832,6 +832,11 @@ def check_apply(R):
             R.oracle_fail("mt-apply:order-dependent", dict(case, schedule={"order": o1, "eager": e1}, schedule2={"order": o2, "eager": e2}),
                           {"distinct_outcomes": len(results)}, {"call": "_multithread_apply_nest", "kind": "order-dependent"})
         R.extra["schedules_run"] = R.extra.get("schedules_run", 0) + len(scheds)
+    mod = R.model(mlines)
+    for (case, sched, impl), m in zip(mobs, mod):
+        if impl != m:
+            R.mismatch("apply:" + ("single-thread" if sched is None else "multithread"), dict(case, schedule=sched), impl, m)
+    R.extra["apply_model_comparisons"] = len(mlines)
 
 
 
